@@ -51,7 +51,7 @@ func init() {
 				a[i] = int(n)
 			}
 			t := time.Date(a[0], time.Month(a[1]), a[2], a[3], a[4], a[5], a[6], time.Local)
-			model = strings.Replace(model, m[0], fmt.Sprintf("t%d.%d", t.Unix(), t.Nanosecond()), 1)
+			model = strings.Replace(model, m[0], encTime(t), 1)
 		}
 		return model
 	})
